@@ -134,6 +134,26 @@ func (s *Session) Exec(c Call) string {
 
 var errBadHandle = fmt.Errorf("bad handle")
 
+// Guard runs f under the watchdog; it reports false (and marks the session wedged) when f
+// does not return in time.  Every observation that touches the drive goes through it.
+func (s *Session) Guard(f func()) bool {
+	done := make(chan struct{})
+	go func() {
+		defer func() {
+			recover()
+			close(done)
+		}()
+		f()
+	}()
+	select {
+	case <-done:
+		return true
+	case <-time.After(s.Timeout):
+		s.Wedged = true
+		return false
+	}
+}
+
 func (s *Session) exec(c Call) (string, error) {
 	f := s.E.FS
 	switch c.Method {
@@ -180,7 +200,7 @@ func (s *Session) exec(c Call) (string, error) {
 		}
 		return EncName(l), nil
 	case "cat":
-		b, err := s.cat(c.name(0))
+		b, err := s.Cat(c.name(0))
 		if err != nil {
 			return "", err
 		}
@@ -247,7 +267,7 @@ func (s *Session) exec(c Call) (string, error) {
 
 // cat = Open; ReadAll; Close.  A read error after a partial read would leave the streaming
 // goroutine holding the drive, so the handle is always drained or closed.
-func (s *Session) cat(name string) ([]byte, error) {
+func (s *Session) Cat(name string) ([]byte, error) {
 	file, err := s.E.FS.Open(name)
 	if err != nil {
 		return nil, err
@@ -317,7 +337,7 @@ func (s *Session) TreeLines() ([]string, error) {
 					return err
 				}
 			} else {
-				b, err := s.cat(p)
+				b, err := s.Cat(p)
 				if err != nil {
 					return fmt.Errorf("cat %q: %w", p, err)
 				}
